@@ -30,17 +30,25 @@ pub struct Report {
     pub inconclusive: Vec<String>,
     pub exhaustive: Option<bool>,
     pub max_samples: usize,
+    /// trace mode: the case about to run is written here first, so that a process that dies
+    /// (abort, stack overflow, hang) leaves its last input behind
+    pub trace_path: Option<String>,
 }
 
 impl Report {
     pub fn new(property: &str) -> Self {
-        Report { property: property.to_string(), max_samples: 4, ..Default::default() }
+        Report { property: property.to_string(), max_samples: 4, trace_path: std::env::var("NQV_TRACE").ok(), ..Default::default() }
     }
     pub fn count(&mut self, key: &str) {
         *self.counters.entry(key.to_string()).or_insert(0) += 1;
     }
     pub fn add(&mut self, key: &str, n: u64) {
         *self.counters.entry(key.to_string()).or_insert(0) += n;
+    }
+    pub fn trace_case(&self, f: impl FnOnce() -> Value) {
+        if let Some(p) = &self.trace_path {
+            let _ = std::fs::write(p, serde_json::to_string(&f()).unwrap_or_default());
+        }
     }
     pub fn eval(&mut self) {
         self.evaluations += 1;
